@@ -1,6 +1,7 @@
 import Exetera.Props.C14
 import Exetera.Props.C10.Basic
 import Exetera.Model.KernelSitesUnique
+import Exetera.Model.KernelPathsUnique
 /-!
 # C10 — the `isin` / `unique` kernels of indexed strings (owning property: C14)
 
@@ -10,6 +11,14 @@ namespace Exetera.Props.C10
 open Exetera Exetera.Unique Exetera.Spec
 
 theorem access_sites_covered_unique : ∀ k ∈ KernelSites.uniqueSites, lookup k.1 = some k := by decide +kernel
+
+/-- the PATH CONDITION of every subscript occurrence in these kernels (enclosing loop guards, `if` / `elif` tests, negated
+    `else` branches and early exits), as regenerated from the current source (`Gen/KernelPaths.lean`), is exactly the one the
+    model was written against (`Model/KernelPathsUnique.lean`): dropping or changing a test that dominates a subscript breaks
+    the build; and the table covers exactly the kernels of the site table -/
+theorem access_paths_covered_unique :
+    (∀ k ∈ KernelPaths.uniquePaths, lookupPaths k.1 = some k) ∧
+    KernelPaths.uniquePaths.map (·.1) = KernelSites.uniqueSites.map (·.1) := by decide +kernel
 
 example : KernelSites.uniqueSites.length = 3 := by decide
 
